@@ -529,7 +529,8 @@ structure AState where
   yw : Option Nat
   /-- the last operation raised `ValueError` (value not among the choices; nothing changed). -/
   err : Bool
-  /-- an `IndexError` escaped (reference data with fewer than two dimensions). -/
+  /-- an `IndexError` escaped (reference data with fewer than two dimensions; unreachable with
+  `fix: image reference needs 2d`, reachable on the pinned tree: `Orig.arun`). -/
   crashed : Bool
   deriving DecidableEq, Repr
 
@@ -570,33 +571,49 @@ world handlers run. -/
 def newRef (d n : Nat) (s : AState) : AState :=
   onYW n (onXW n { s with ref := some d, xw := some (n - 1), yw := some (n - 2) })
 
-/-- `_reference_data_changed` when the last layer went away: no choices, no world attributes; with
-`fix: image stale axes` the pixel attributes are cleared as well. -/
+/-- `_reference_data_changed` when no layer that can be reference data is left: no choices, no
+world attributes; with `fix: image stale axes` the pixel attributes are cleared as well. -/
 def noRef (s : AState) : AState := { s with ref := none, x := none, y := none, xw := none, yw := none }
 
-/-- `_layers_changed`: the reference-data picker gets the datasets of the layers; a reference
-dataset that is no longer among them is replaced by the first one. -/
-def layersChanged (ndim : Nat → Nat) (s : AState) : AState :=
+/-- `reference_data` becomes `d`: `_on_xatt_world_change` indexes `world_ids[-2]`, so a dataset with
+fewer than two dimensions makes an `IndexError` escape (the handlers still are like that; the
+repaired code never lets such a dataset get here — theorem `image_axes_distinct`). -/
+def setNewRef (ndim : Nat → Nat) (d : Nat) (s : AState) : AState :=
+  if ndim d < 2 then { s with crashed := true } else newRef d (ndim d) s
+
+/-- the choices of the reference-data picker (`_update_combo_ref_data`): the datasets of the layers
+with at least `minDim` dimensions.  The code with `fix: image reference needs 2d` is `minDim = 2`
+(1-d datasets — tables shown as scatter overlays — are never offered); the pinned tree offered every
+dataset (`minDim = 0`, namespace `Orig`). -/
+def refChoices (minDim : Nat) (ndim : Nat → Nat) (ls : List Nat) : List Nat :=
+  ls.filter fun d => decide (minDim ≤ ndim d)
+
+/-- `_layers_changed`: the reference-data picker is refilled (`refChoices`); echo keeps the selection
+if it is still a choice, otherwise takes the first choice, or `None` when there is none;
+`_set_reference_data` then picks the first layer dataset that qualifies if nothing is selected
+(the same dataset). -/
+def layersChangedWith (minDim : Nat) (ndim : Nat → Nat) (s : AState) : AState :=
+  let choices := refChoices minDim ndim s.layers
   match s.ref with
-  | some r => if s.layers.contains r then s else
-      match s.layers.head? with
-      | some d => if ndim d < 2 then { s with crashed := true } else newRef d (ndim d) s
+  | some r => if choices.contains r then s else
+      match choices.head? with
+      | some d => setNewRef ndim d s
       | none => noRef s
   | none =>
-      match s.layers.head? with
-      | some d => if ndim d < 2 then { s with crashed := true } else newRef d (ndim d) s
+      match choices.head? with
+      | some d => setNewRef ndim d s
       | none => s
 
-def astep (ndim : Nat → Nat) (s0 : AState) (op : AOp) : AState :=
+def astepWith (minDim : Nat) (ndim : Nat → Nat) (s0 : AState) (op : AOp) : AState :=
   if s0.crashed then s0 else
   let s := { s0 with err := false }
   match s.ref with
   | none =>
     match op with
-    | .addLayer d => if s.layers.contains d then s else layersChanged ndim { s with layers := s.layers ++ [d] }
-    | .removeLayer d => layersChanged ndim { s with layers := s.layers.erase d }
+    | .addLayer d => if s.layers.contains d then s else layersChangedWith minDim ndim { s with layers := s.layers ++ [d] }
+    | .removeLayer d => layersChangedWith minDim ndim { s with layers := s.layers.erase d }
     | .setX _ | .setY _ => s   -- outside the modelled domain (never generated)
-    | _ => { s with err := true }
+    | _ => { s with err := true }   -- nothing is on offer: `ValueError`
   | some r =>
     let n := ndim r
     match op with
@@ -605,23 +622,31 @@ def astep (ndim : Nat → Nat) (s0 : AState) (op : AOp) : AState :=
     | .setXW i => if i < n then onXW n { s with xw := some i } else { s with err := true }
     | .setYW j => if j < n then onYW n { s with yw := some j } else { s with err := true }
     | .setRef d =>
-      if !s.layers.contains d then { s with err := true }
+      if !(refChoices minDim ndim s.layers).contains d then { s with err := true }   -- not a choice: `ValueError`
       else if d = r then s
-      else if ndim d < 2 then { s with crashed := true }
-      else newRef d (ndim d) s
-    | .addLayer d => if s.layers.contains d then s else layersChanged ndim { s with layers := s.layers ++ [d] }
-    | .removeLayer d => layersChanged ndim { s with layers := s.layers.erase d }
+      else setNewRef ndim d s
+    | .addLayer d => if s.layers.contains d then s else layersChangedWith minDim ndim { s with layers := s.layers ++ [d] }
+    | .removeLayer d => layersChangedWith minDim ndim { s with layers := s.layers.erase d }
 
+/-- the code that exists (with `fix: image reference needs 2d`). -/
+def layersChanged (ndim : Nat → Nat) (s : AState) : AState := layersChangedWith 2 ndim s
+def astep (ndim : Nat → Nat) (s : AState) (op : AOp) : AState := astepWith 2 ndim s op
 def arun (ndim : Nat → Nat) (s : AState) (ops : List AOp) : AState := ops.foldl (astep ndim) s
 
-/-- Spec: with a reference dataset, `x_att` and `y_att` are two *different* pixel axes of it and
-agree with their world twins; without one, nothing is selected. -/
+/-- the pinned tree before `fix: image reference needs 2d` (finding C18b): every dataset of a layer
+is offered as reference data. -/
+def Orig.arun (ndim : Nat → Nat) (s : AState) (ops : List AOp) : AState := ops.foldl (astepWith 0 ndim) s
+
+/-- Spec: with a reference dataset — always one of the layers' datasets with at least two
+dimensions —, `x_att` and `y_att` are two *different* pixel axes of it and agree with their world
+twins; there is none only when no layer has a dataset of two or more dimensions, and then nothing is
+selected. -/
 def axesOk (ndim : Nat → Nat) (s : AState) : Bool :=
   !s.crashed &&
   match s.ref with
-  | none => s.x.isNone && s.y.isNone && s.xw.isNone && s.yw.isNone && s.layers.isEmpty
+  | none => s.x.isNone && s.y.isNone && s.xw.isNone && s.yw.isNone && s.layers.all (fun d => decide (ndim d < 2))
   | some r =>
-    s.layers.contains r &&
+    s.layers.contains r && decide (2 ≤ ndim r) &&
     match s.x, s.y with
     | some i, some j => decide (i ≠ j) && decide (i < ndim r) && decide (j < ndim r) && s.xw == some i && s.yw == some j
     | _, _ => false
